@@ -272,11 +272,17 @@ namespace embedded_pairing::core {
         word_t shift_right(const BigInt<bits>& a, unsigned int amt) {
             unsigned int word_offset = amt / (sizeof(word_t) * 8);
             unsigned int bit_offset = amt % (sizeof(word_t) * 8);
-            word_t shift_in = 0;
-            for (int i = word_length - word_offset - 1; i != -1; i--) {
+            word_t shift_out = 0;
+
+            /*
+             * Go from the least significant word upwards, so that every word
+             * of a is read before it is overwritten in case this and a are
+             * aliased.
+             */
+            for (int i = 0; i != word_length - word_offset; i++) {
                 /*
                  * It turns out that the code:
-                 * word_t new_shift_in = a.words[i+word_offset]
+                 * word_t upper = a.words[i+word_offset+1]
                  *     << ((sizeof(word_t) *8) - bit_offset);
                  * is actually WRONG. If bit_offset == 0, it may, e.g.,
                  * take a uint64_t and shift it left by 64 bits, which is
@@ -286,10 +292,16 @@ namespace embedded_pairing::core {
                  * The solution is to shift in two stages, to handle this
                  * edge case.
                  */
-                word_t new_shift_in = a.words[i + word_offset] << ((sizeof(word_t) * 8) - bit_offset - 1);
-                new_shift_in <<= 1;
-                this->words[i] = shift_in | (a.words[i + word_offset] >> bit_offset);
-                shift_in = new_shift_in;
+                word_t upper = 0;
+                if (i + word_offset + 1 != word_length) {
+                    upper = a.words[i + word_offset + 1] << ((sizeof(word_t) * 8) - bit_offset - 1);
+                    upper <<= 1;
+                }
+                if (i == 0) {
+                    shift_out = a.words[word_offset] << ((sizeof(word_t) * 8) - bit_offset - 1);
+                    shift_out <<= 1;
+                }
+                this->words[i] = upper | (a.words[i + word_offset] >> bit_offset);
             }
 
             /* We wait until the end, in case this and a are aliased. */
@@ -297,19 +309,31 @@ namespace embedded_pairing::core {
                 this->words[word_length - i - 1] = 0;
             }
 
-            return shift_in;
+            return shift_out;
         }
 
         word_t shift_left(const BigInt<bits>& a, unsigned int amt) {
             unsigned int word_offset = amt / (sizeof(word_t) * 8);
             unsigned int bit_offset = amt % (sizeof(word_t) * 8);
-            word_t shift_in = 0;
-            for (int i = word_offset; i != word_length; i++) {
+            word_t shift_out = 0;
+
+            /*
+             * Go from the most significant word downwards, so that every word
+             * of a is read before it is overwritten in case this and a are
+             * aliased.
+             */
+            for (int i = word_length - 1; i != (int) word_offset - 1; i--) {
                 /* See comment above in shift_right. */
-                word_t new_shift_in = a.words[i - word_offset] >> ((sizeof(word_t) * 8) - bit_offset - 1);
-                new_shift_in >>= 1;
-                this->words[i] = (a.words[i - word_offset] << bit_offset) | shift_in;
-                shift_in = new_shift_in;
+                word_t lower = 0;
+                if (i != word_offset) {
+                    lower = a.words[i - word_offset - 1] >> ((sizeof(word_t) * 8) - bit_offset - 1);
+                    lower >>= 1;
+                }
+                if (i == word_length - 1) {
+                    shift_out = a.words[i - word_offset] >> ((sizeof(word_t) * 8) - bit_offset - 1);
+                    shift_out >>= 1;
+                }
+                this->words[i] = (a.words[i - word_offset] << bit_offset) | lower;
             }
 
             /* We wait until the end, in case this and a are aliased. */
@@ -317,7 +341,7 @@ namespace embedded_pairing::core {
                 this->words[i] = 0;
             }
 
-            return shift_in;
+            return shift_out;
         }
 
         // void multiply(const BigInt<bits/2>& __restrict a, const BigInt<bits/2>& __restrict b) {
